@@ -156,7 +156,7 @@ class Session:
         else:
             o = observe(lambda: self.it.interpret(src, "session"), 600000)
         if o.kind == "value":
-            return ("value", core.safe_str(o.value, 200))
+            return ("value", core.safe_str(o.value, 20000))
         if o.kind == "rte":
             return ("error", core.safe_str(getattr(o.exc, "value", None), 100))
         if o.kind == "syntax":
